@@ -185,6 +185,15 @@ Proof.
   repeat split; vm_compute; reflexivity.
 Qed.
 
+(* default groups named as group_id in their own role are inside the hypothesis *)
+Definition default_named_ops : list op :=
+  [ seg_op None None (Some "soma_group") "soma" true; seg_op None (Some 0) (Some "all") "dendrite" true;
+    seg_op None (Some 1) (Some "dendrite_group") "dendrite" false; AddSegmentGroup "axon_group" None ].
+Example default_named_ok : exists c c',
+  run true default_named_ops init_bare = BRet c /\ run_ok true default_named_ops init_bare = true /\
+  finish c = BRet c' /\ wellformed c' = true.
+Proof. eexists. eexists. split; [vm_compute; reflexivity|]. split; [vm_compute; reflexivity|]. split; vm_compute; reflexivity. Qed.
+
 (* the hypotheses are met by a non-trivial sequence: soma, two unbranched sections with deferred
    reorder/optimise, a later segment in an existing group, a plain group, the basic properties *)
 Definition typical_ops : list op :=
